@@ -90,6 +90,13 @@ def to_json(eng, v: Val) -> Val:
     raise GenerationError(f"to_json {v}")
 
 
+def listv_to_seq(eng, v: ListV) -> Val:
+    """A python-level list literal as an SMT sequence (items must share one SMT type)."""
+    if v.items and all(isinstance(i, V) for i in v.items) and len({repr(i.ty) for i in v.items}) == 1:
+        return coerce(eng, v, TSeq(v.items[0].ty))
+    raise GenerationError("heterogeneous or empty list literal needs a declared type")
+
+
 def fresh_val(eng, hint: str, ty: Ty) -> Val:
     if isinstance(ty, TNone):
         return NoneV()
@@ -173,6 +180,14 @@ def py_eq(eng, a: Val, b: Val) -> Term:
         # different python types are never equal (str vs int ...)
         if {type(a.ty), type(b.ty)} <= {TStr, TInt, TBool, TSeq} and type(a.ty) is not type(b.ty):
             return FALSE
+    if isinstance(a, ListV) and isinstance(b, V) and isinstance(b.ty, TSeq):
+        return Eq(coerce(eng, a, b.ty).t, b.t)
+    if isinstance(b, ListV) and isinstance(a, V) and isinstance(a.ty, TSeq):
+        return Eq(a.t, coerce(eng, b, a.ty).t)
+    if isinstance(a, ListV) and isinstance(b, ListV):
+        if len(a.items) != len(b.items):
+            return FALSE
+        return And(*[py_eq(eng, x, y) for x, y in zip(a.items, b.items)])
     if isinstance(a, (DictV, ListV)) or isinstance(b, (DictV, ListV)):
         return Eq(to_json(eng, a).t, to_json(eng, b).t)
     raise GenerationError(f"== between {a} and {b}")
@@ -217,7 +232,7 @@ def py_index(eng, st, v: Val, idx: Val, origin: str) -> Val:
     if isinstance(v, ListV):
         k = _const_int(idx)
         if k is None:
-            raise GenerationError("python-level list index must be constant")
+            return py_index(eng, st, listv_to_seq(eng, v), idx, origin)
         if not (-len(v.items) <= k < len(v.items)):
             eng.may_raise(st, FALSE, "IndexError", origin)
         return v.items[k]
@@ -259,7 +274,7 @@ def py_index(eng, st, v: Val, idx: Val, origin: str) -> Val:
         return wrap(eng, v.ty.val, d.opt_val(cell))
     if isinstance(v, V) and isinstance(v.ty, TJson):
         # subscripting an arbitrary JSON value: may raise KeyError/TypeError/IndexError
-        ok = d.fun("json_has_item", [v.t.sort, v.t.sort], smt.BOOL)(v.t, to_json(eng, idx).t)
+        ok = d.fun("json_has_key", [v.t.sort, v.t.sort], smt.BOOL)(v.t, to_json(eng, idx).t)
         eng.may_raise(st, ok, "LookupOrTypeError", origin)
         return V(JSON, d.fun("json_item", [v.t.sort, v.t.sort], v.t.sort)(v.t, to_json(eng, idx).t))
     raise GenerationError(f"subscript of {v} at {origin}")
